@@ -137,6 +137,8 @@ impl<W: io::Write> Compose<W> for uri::Rsync {
         u32::try_from(self.as_slice().len())
         .map_err(|_| ParseError::format("excessively large URI"))?
         .compose(target)?;
+        #[cfg(routinator_verif)]
+        crate::verif::kill_point("binio.rsync-uri.len");
         target.write_all(self.as_slice())
     }
 }
@@ -194,6 +196,8 @@ impl<W: io::Write> Compose<W> for Option<uri::Https> {
             u32::try_from(uri.as_slice().len())
             .map_err(|_| ParseError::format("excessively large URI"))?
             .compose(target)?;
+            #[cfg(routinator_verif)]
+            crate::verif::kill_point("binio.https-uri.len");
             target.write_all(uri.as_slice())
         }
         else {
